@@ -103,7 +103,11 @@ class Thr(Engine):
                 if r < 0.6:
                     wls.append('rd ' + rng.choice(R)[1])
                 elif r < 0.9:
-                    wls.append(f'wr {rng.choice(WRITE_FORMATS)} {rng.choice(WRITE_FILTERS)} {rng.randrange(1000)} {rng.choice([0, 1, 4, 9])}')
+                    flt = rng.choice(WRITE_FILTERS)
+                    # lz4 closed with zero bytes written crashes single-threaded (XXH32_digest(NULL)): a C03 finding,
+                    # not a concurrency one; keep it out of the C13 workloads
+                    cnt = rng.choice([1, 4, 9] if flt == 'lz4' else [0, 1, 4, 9])
+                    wls.append(f'wr {rng.choice(WRITE_FORMATS)} {flt} {rng.randrange(1000)} {cnt}')
                 elif r < 0.96:
                     wls.append(f'dw {rng.randrange(1000)} {rng.choice([1, 6])}')
                 else:
